@@ -517,6 +517,8 @@ class Tracer:
                     and not value.args and self.stream_of(value.func.value, st) is not None:
                 # a remembered stream position: seeking back to it un-consumes what was read since
                 val = ("pos", self.stream_of(value.func.value, st), st.loopdepth, len(st.tok))
+            elif self._is_sentinel_iter_call(value) and self.sentinel_iter(value, st) is not None:
+                val = ("sentiter", self.sentinel_iter(value, st)[0])
             elif isinstance(value, ast.Lambda):
                 val = "<lambda>"
             else:
@@ -685,10 +687,66 @@ class Tracer:
                     out.add(x.id)
         return out
 
+    @staticmethod
+    def _is_sentinel_iter_call(node) -> bool:
+        return isinstance(node, ast.Call) and isinstance(node.func, ast.Name) and node.func.id == "iter" \
+            and len(node.args) == 2 and not node.keywords
+
+    def sentinel_iter(self, it, st: St):
+        """`iter(callable, sentinel)`, directly or through a local, optionally under islice(.., n):
+        -> (callable node, count expr or None) - a read-until-sentinel loop: the callable runs at the start of
+        every iteration and the loop ends when it returns the sentinel (or after n rounds)."""
+        count = None
+        if isinstance(it, ast.Call) and self._callee_last(it) == "islice" and len(it.args) == 2:
+            count = it.args[1]
+            it = it.args[0]
+        fn = None
+        if self._is_sentinel_iter_call(it):
+            fn = it.args[0]
+            if isinstance(fn, ast.Name):
+                v = st.env.get(fn.id)
+                fn = v[1] if isinstance(v, tuple) and v[0] == "closure" else None
+        elif isinstance(it, ast.Name):
+            v = st.env.get(it.id)
+            if isinstance(v, tuple) and v[0] == "sentiter":
+                fn = v[1]
+        if fn is None or not isinstance(fn, (ast.Lambda,) + FUNC_TYPES):
+            return None
+        return fn, count
+
+    def _pull_sentinel(self, fn, b: St, fr: Frame) -> List[St]:
+        """One next() of a sentinel iterator: the callable's events, then either the sentinel (loop ends) or a value."""
+        if isinstance(fn, ast.Lambda):
+            pulled = self.expr(fn.body, b, fr)
+        else:
+            pulled = self._inline_closure(fn, [], [], b, fr)
+        out = []
+        for y in pulled:
+            if y.status != "n":
+                out.append(y)
+                continue
+            stop = y.copy()
+            stop.status = "brk"
+            out.append(stop)
+            out.append(y)
+        return out
+
     def _for(self, s, st: St, fr: Frame) -> List[St]:
+        assigned = self._assigned_names(s.body + [s.target])
+        si = self.sentinel_iter(s.iter, st)
+        if si is not None:
+            fn, count = si
+
+            def sbody(b: St):
+                states = self._pull_sentinel(fn, b, fr)
+                for y in states:
+                    if y.status == "n":
+                        self._bind(s.target, "<pulled:<stream:>>", y)
+                return self.block(s.body, states, fr)
+            return self._loop(st, fr, "rep", self.sym(count, st, fr) if count is not None else None, sbody, assigned,
+                              s.orelse, infinite=count is None)
         sources, count, elem = self.iter_info(s.iter, st, fr)
         kind = self.loop_kind(sources)
-        assigned = self._assigned_names(s.body + [s.target])
 
         def body(b: St):
             self._bind(s.target, elem, b)
@@ -718,19 +776,25 @@ class Tracer:
                     states = self._fm(states, lambda y, e=e: self.expr(e, y, fr))
                 return states
             g = gens[i]
-            pre = self.expr(g.iter, x, fr)
+            si = self.sentinel_iter(g.iter, x)
+            pre = [x] if si is not None else self.expr(g.iter, x, fr)
             out = []
             for p in pre:
                 if p.status != "n":
                     out.append(p)
                     continue
-                sources, count, elem = self.iter_info(g.iter, p, fr)
+                if si is not None:
+                    sources, count, elem = [], (self.sym(si[1], p, fr) if si[1] is not None else None), "<pulled:<stream:>>"
+                else:
+                    sources, count, elem = self.iter_info(g.iter, p, fr)
                 kind = self.loop_kind(sources)
                 assigned = self._assigned_names([g.target])
 
-                def body(b: St, g=g, elem=elem, i=i):
-                    self._bind(g.target, elem, b)
-                    states = [b]
+                def body(b: St, g=g, elem=elem, i=i, si=si):
+                    states = self._pull_sentinel(si[0], b, fr) if si is not None else [b]
+                    for y in states:
+                        if y.status == "n":
+                            self._bind(g.target, elem, y)
                     for c in g.ifs:
                         nxt = []
                         for y in states:
@@ -751,7 +815,8 @@ class Tracer:
                                     nxt.append(z)
                         states = nxt
                     return self._fm(states, lambda y: level(i + 1, y))
-                out.extend(self._loop(p, fr, kind, count, body, assigned))
+                out.extend(self._loop(p, fr, kind, count, body, assigned,
+                                      infinite=si is not None and si[1] is None))
             return out
         res = level(0, st)
         for r in res:
@@ -918,6 +983,8 @@ class Tracer:
             return [st]
         if isinstance(f, ast.Name) and f.id in PURE_BUILTINS and f.id not in st.env:
             return [st]
+        if self._is_sentinel_iter_call(node) and "iter" not in st.env:
+            return [st]          # the callable runs when the iterator is pulled (see sentinel_iter), not "later"
         inl = self.try_inline(node, st, fr)
         if inl is not None:
             return inl
